@@ -69,14 +69,21 @@ def registry(rep, names):
     # tell d(x_i, x_j) from d(x_j, x_i))
     import numpy as np
     import opfython.math.general as g
-    Zs = np.array([[0.2, 0.5, 0.3], [0.6, 0.1, 0.3], [0.25, 0.25, 0.5], [0.1, 0.8, 0.1], [0.4, 0.35, 0.25]])      # positive, rows sum to 1
+    Zs0 = np.array([[0.2, 0.5, 0.3], [0.6, 0.1, 0.3], [0.25, 0.25, 0.5], [0.1, 0.8, 0.1], [0.4, 0.35, 0.25]])      # positive, rows sum to 1
     Ys = np.array([0, 1, 0, 1, 1])
     m_pairs = 0
-    for nm in sorted(names & reg):
+    # the samples as callers hold them: float64, integer-typed counts (grey levels, word counts), single precision - the matrix holds
+    # the metric's values on those very rows, whatever their dtype (and is not itself of that dtype)
+    datasets = [("float64", Zs0), ("int64", np.array([[2, 5, 3], [6, 1, 3], [1, 1, 2], [1, 8, 1], [4, 3, 2]], dtype=np.int64)), ("float32", Zs0.astype(np.float32))]
+    for dname, Zs in datasets:
+      for nm in sorted(names & reg):
         fn = d.DISTANCES[nm]
         try:
             want = [[float(fn(Zs[i].copy(), Zs[j].copy())) for j in range(len(Zs))] for i in range(len(Zs))]
         except Exception as ex:
+            if dname != "float64":
+                rep.skip("metric_raised_on_%s_rows" % dname)
+                continue
             rep.violation("DISTANCES[%s]" % nm, "metric_raised_on_in_domain_vectors", nm, {"metric": nm, "vectors": Zs.tolist(), "exception": "%s: %s" % (type(ex).__name__, str(ex)[:100])})
             continue
         try:
@@ -87,14 +94,17 @@ def registry(rep, names):
             mdl.fit(Zs.copy(), Ys.copy())
             got_model = mdl.get_distances()
         except Exception as ex:
-            rep.violation("pre_compute_distance/get_distances", "matrix_routine_raised", nm, {"identifier": nm, "exception": "%s: %s" % (type(ex).__name__, str(ex)[:120])})
+            if dname != "float64" and not np.all(np.isfinite(np.array(want))):
+                rep.skip("matrix_routine_raised_on_non_finite_%s_distances" % dname)
+                continue
+            rep.violation("pre_compute_distance/get_distances", "matrix_routine_raised", nm, {"identifier": nm, "rows": dname, "exception": "%s: %s" % (type(ex).__name__, str(ex)[:120])})
             continue
         for label, got in (("pre_compute_distance", got_file), ("get_distances", got_model)):
             badp = [(i, j, float(got[i][j]), want[i][j]) for i in range(len(Zs)) for j in range(len(Zs)) if i != j and not (got[i][j] == want[i][j] or (got[i][j] != got[i][j] and want[i][j] != want[i][j]))]
             m_pairs += len(Zs) * (len(Zs) - 1)
             if badp:
                 i, j, a, b = badp[0]
-                rep.violation(label, "matrix_entry_is_not_the_registered_metric_on_that_ordered_pair", nm, {"identifier": nm, "i": i, "j": j, "entry": a, "metric_value": b, "n_wrong": len(badp)})
+                rep.violation(label, "matrix_entry_is_not_the_registered_metric_on_that_ordered_pair", nm, {"identifier": nm, "rows": dname, "i": i, "j": j, "entry": a, "metric_value": b, "n_wrong": len(badp)})
     rep.count("matrix_routine_ordered_pairs", m_pairs)
 
 
